@@ -31,7 +31,15 @@ const BOUNDARY: &[u8] = b"/09:@AZ[`az{ $%*+-.,#&'()!\"\x00\x1f\x7f\x80\xff;<=>?"
 pub fn check(input: &Vec<u8>, obs: &mut Obs) -> Result<(), Fail> {
     let want = classify(input);
     // level L so that long strings still fit; mode, version and mask automatic / irrelevant
-    let mut bc = BuildCase::new(input.clone(), Opts { mode: None, level: Some(Level::L), version: None, mask: Some((input.len() % 8) as u8) });
+    // one case in three pins the version to the smallest one that holds the input in its most compact mode (a wider mode
+    // would not fit there), one in three leaves level and version automatic when the input fits at the default level
+    let hsel = crate::engine::hash_bytes(input) >> 20;
+    let pinned = if hsel % 3 == 0 { min_version(Level::L, want, input.len()) } else { None };
+    let default_level = hsel % 3 == 1 && min_version(Level::Q, want, input.len()).is_some();
+    if pinned.is_some() {
+        obs.label("version_pinned_to_minimum_of_compact_mode");
+    }
+    let mut bc = BuildCase::new(input.clone(), Opts { mode: None, level: if default_level { None } else { Some(Level::L) }, version: pinned, mask: Some((input.len() % 8) as u8) });
     // half of the cases are built right after a related build on the same thread (the input extended by a character of
     // a wider / the same class, the input without its last character, same length with other content, same input under
     // other options): the mode must be decided from the bytes of THIS input alone
@@ -44,7 +52,7 @@ pub fn check(input: &Vec<u8>, obs: &mut Obs) -> Result<(), Fail> {
         Err(e) => {
             // only acceptable when the input really exceeds V40-L capacity in its most compact mode
             ensure!(
-                min_version(Level::L, want, input.len()).is_none(),
+                min_version(bc.effective_level(), want, input.len()).is_none(),
                 "rejected",
                 "automatic mode rejects an input of {} bytes ({}) that fits as {}: {:?}",
                 input.len(),
